@@ -316,6 +316,7 @@ func CheckC12(c *Ctx) {
 	run.Explanation = "The resulting repository contents and idempotence depend on repository semantics and are NOT decided. Decided structurally on the worker closure of Sync.Run: the start date is LastDate+1 day when the target has the asset and the default start date otherwise, and that value is what is passed to source.GetSince, whose result is what is appended to the target; every error branch inside the per-asset loop records the failure and continues with the next asset (no return/break: one failing asset does not stop the others), and Run returns a non-nil error iff a failure was recorded; wg.Wait() precedes the final return; all assets flow through one channel consumed by all workers. The SSA shared-write analysis shows that no worker writes memory shared with the other workers without synchronisation (the failure flag; the target repository through the Repository interface, resolved by CHA), and every method of InMemoryRepository touches its map under the mutex."
 	run.Trusted = []string{"go/types", "go/ssa + CHA (x/tools v0.29.0)", "sync/atomic and sync.Mutex semantics"}
 	c.syncCommandWiring()
+	c.workersPositive("cmd/indicator-sync", "sync/command")
 	c.assetNameCodec() // asset lists taken from a file-system target
 	fi := c.fn("asset", "Sync", "Run")
 	if fi == nil {
@@ -702,6 +703,7 @@ func CheckC13(c *Ctx) {
 	// what a worker writes is what ComputeWithOutcome hands back: the strategy's own actions and
 	// Outcome(closings, those actions)
 	c.computeWithOutcomeWiring("backtest/direct-evaluation")
+	c.workersPositive("cmd/indicator-backtest", "backtest/command")
 	wFi := c.P.Method("backtest", "Backtest", "worker")
 	if wFi == nil {
 		wFi = c.goMethod(runFi) // the method Run starts with `go`, whatever it is called now
@@ -1381,4 +1383,121 @@ func recordsFailure(b *ast.BlockStmt) string {
 		return true
 	})
 	return sets
+}
+
+// workersPositive: a command that runs Sync or Backtest hands over a worker count that is at
+// least one whenever the -workers flag is (zero workers process nothing and the run still
+// reports success). The lower bound of the assigned expression is computed over intervals: a flag
+// variable is >= 1, len(...) >= 0, constants are themselves, min/max/+/* combine bounds.
+func (c *Ctx) workersPositive(rel, rule string) {
+	run := c.Run
+	fi := c.fn(rel, "", "main")
+	if fi == nil {
+		run.Break("anchor missing: " + rel + ".main")
+		return
+	}
+	info := fi.Pkg.TypesInfo
+	site := rel + ".main"
+	// variables bound to a command-line flag
+	flagVars := map[types.Object]bool{}
+	ast.Inspect(fi.Decl.Body, func(n ast.Node) bool {
+		call, ok := n.(*ast.CallExpr)
+		if !ok {
+			return true
+		}
+		if nm := calleeName(info, call); strings.HasPrefix(nm, "flag.") && strings.HasSuffix(nm, "Var") && len(call.Args) > 0 {
+			if u, ok := call.Args[0].(*ast.UnaryExpr); ok && u.Op == token.AND {
+				if id, ok := u.X.(*ast.Ident); ok {
+					flagVars[info.ObjectOf(id)] = true
+				}
+			}
+		}
+		return true
+	})
+	defs := singleDefs(info, fi.Decl.Body)
+	const unknown = -1 << 40
+	var lower func(e ast.Expr, depth int) int64
+	lower = func(e ast.Expr, depth int) int64 {
+		if depth > 6 {
+			return unknown
+		}
+		e = ast.Unparen(e)
+		if tv, ok := info.Types[e]; ok && tv.Value != nil {
+			if v, exact := constant.Int64Val(constant.ToInt(tv.Value)); exact {
+				return v
+			}
+		}
+		switch x := e.(type) {
+		case *ast.Ident:
+			obj := info.ObjectOf(x)
+			if flagVars[obj] {
+				return 1
+			}
+			if d, ok := defs[obj]; ok {
+				return lower(d, depth+1)
+			}
+		case *ast.CallExpr:
+			if id, ok := x.Fun.(*ast.Ident); ok {
+				switch id.Name {
+				case "len", "cap":
+					return 0
+				case "min":
+					m := int64(1 << 40)
+					for _, a := range x.Args {
+						if v := lower(a, depth+1); v < m {
+							m = v
+						}
+					}
+					return m
+				case "max":
+					m := int64(unknown)
+					for _, a := range x.Args {
+						if v := lower(a, depth+1); v > m {
+							m = v
+						}
+					}
+					return m
+				}
+				if tv, ok := info.Types[x.Fun]; ok && tv.IsType() && len(x.Args) == 1 {
+					return lower(x.Args[0], depth+1) // conversion
+				}
+			}
+		case *ast.BinaryExpr:
+			l, r := lower(x.X, depth+1), lower(x.Y, depth+1)
+			if l == unknown || r == unknown {
+				return unknown
+			}
+			switch x.Op {
+			case token.ADD:
+				return l + r
+			case token.MUL:
+				if l >= 0 && r >= 0 {
+					return l * r
+				}
+			}
+		}
+		return unknown
+	}
+	n := 0
+	ast.Inspect(fi.Decl.Body, func(nd ast.Node) bool {
+		as, ok := nd.(*ast.AssignStmt)
+		if !ok || len(as.Lhs) != len(as.Rhs) {
+			return true
+		}
+		for i, l := range as.Lhs {
+			sel, ok := l.(*ast.SelectorExpr)
+			if !ok || sel.Sel.Name != "Workers" {
+				continue
+			}
+			n++
+			lb := lower(as.Rhs[i], 0)
+			good := lb >= 1
+			run.Oblige(good)
+			if !good {
+				c.violate(rule, site, "Workers = "+short(exprString(as.Rhs[i]), 60), as.Pos(), "the worker count handed over ("+exprString(as.Rhs[i])+") can be zero although the -workers flag is at least one: with no workers nothing is processed and the command still reports success")
+			}
+		}
+		return true
+	})
+	run.Count("worker_count_handovers", n)
 }
